@@ -64,6 +64,8 @@ def b_answers(job):
         body = G.dlgraph_history(g, rng, queries=queries)
     elif job.get("mode") == "diamond":
         body = G.diamond_history(g, rng, queries=queries)
+    elif job.get("mode") == "guarded":
+        body = G.guarded_history(g, rng, queries=queries)
     elif job.get("mode") == "cnf":
         body = cnf_history(g, rng, n_atoms=job.get("n_atoms", 8), levels=job.get("levels", 4))
         if queries:
@@ -536,6 +538,26 @@ def b_itp(job):
     g = G.Gen(rng, job["logic"], box=True, nbool=job.get("nbool", rng.choice([3, 3, 6])))
     body = unsat_biased_body(g, rng, n_named=job.get("n_named", 4), p_named=1.0, nested=False,
                              histories=job.get("histories", True), n_atoms=job.get("n_atoms", rng.choice([3, 3, 5])))
+    probe_groups = None
+    if ngroups_ok(job) and len(g.bools) >= 2 and rng.random() < 0.35:
+        # a symbol that is local to one side: q occurs on a level that is popped (before or after a check-sat looked at
+        # it), later only in assertions of group A; the refutation resolves on q, the interpolant must not mention it
+        tb = g.tb
+        q, t = g.bools[-1], g.bools[0]
+        pre = [{"c": "push", "n": 1}]
+        if rng.random() < 0.5:
+            pre += [{"c": "assert", "t": tb.app("or", [t, tb.app("not", [t])]), "nm": "lp0", "inner": []}, {"c": "check-sat"}]
+        other = rng.choice(g.bools[1:-1]) if len(g.bools) > 2 else tb.app("not", [t])     # not the formula asserted later
+        pre += [{"c": "assert", "t": tb.app("or", [q, other]), "nm": "lp1", "inner": []}, {"c": "pop", "n": 1}]
+        tail = [{"c": "assert", "t": tb.app("or", [q, t]), "nm": "lpa", "inner": []},
+                {"c": "assert", "t": tb.app("or", [tb.app("not", [q]), t]), "nm": "lpb", "inner": []},
+                {"c": "assert", "t": tb.app("not", [t]), "nm": "lpc", "inner": []}]
+        # drop assertions of the random part that mention q, keep the rest
+        body = [c for c in body if not (c["c"] == "assert" and q in tb.subterms(c["t"]))]
+        last_check = max((i for i, c in enumerate(body) if c["c"] == "check-sat"), default=len(body) - 1)
+        depth_ok = True
+        body = pre + body[:last_check] + tail + body[last_check:]
+        probe_groups = [["lpa", "lpb"], ["lpc"]]
     # after every check-sat: interpolation requests over the names active there
     out = []
     mir = C.Mirror()
@@ -552,11 +574,21 @@ def b_itp(job):
                     cuts = sorted(rng.sample(range(1, len(sh)), ngroups - 1))
                     groups = [sorted(sh[a:b]) for a, b in zip([0] + cuts, cuts + [len(sh)])]
                     out.append({"c": "get-interpolants", "groups": groups})
+                if probe_groups and all(n in names for grp in probe_groups for n in grp):
+                    rest = sorted(n for n in names if n not in ("lpa", "lpb", "lpc"))
+                    if ngroups == 2:
+                        out.append({"c": "get-interpolants", "groups": [probe_groups[0], sorted(probe_groups[1] + rest)]})
+                    elif rest:
+                        out.append({"c": "get-interpolants", "groups": [probe_groups[0], probe_groups[1], rest][:ngroups] if ngroups == 3 else
+                                    [probe_groups[0], probe_groups[1]] + [[r_] for r_ in rest[:ngroups - 2]]})
     cfg = job.get("cfg", "c0")
     cmds = G.preamble(g, opts + _opts(cfg)) + out
     fam = C.Family(g)
     fam.add_run("s", cfg, "main", cmds)
     return _result(fam, job)
+
+def ngroups_ok(job):
+    return job.get("groups", 2) in (2, 3)
 
 # ------------------------------------------------------------------ rejected commands
 def bad_commands(g, rng, depth_hint=0):
@@ -751,7 +783,7 @@ def b_pipe(job):
     for nm in weird:
         g._declare(nm, (), BOOL); wv.append(tb.var(nm, BOOL)); g.bools.append(wv[-1])
     body = G.random_history(g, rng, n_assert=4, queries=[{"c": "get-model"}] if not g.arr else [], fdepth=1)
-    echos = ['plain', 'with ) paren', 'semi ; colon', '( open', 'bar | bar', ') ; ( | all', 'two  spaces']
+    echos = ['plain', 'with ) paren', 'semi ; colon', '( open', 'bar | bar', ') ; ( | all', 'two  spaces', '', '', ' ']
     esc = ['back\\\\slash', 'quote \\" inside ) it', 'C:\\\\', '\\"(', 'a\\\\\\"b ; (']
     cmds = G.preamble(g, _opts("models") if not g.arr else [])
     if job.get("escapes"):
